@@ -92,7 +92,7 @@ let run_group lines =
   print_string ("!ORACLE named k=" ^ (match named_args !fmt with
     | None -> "none"
     | Some ks -> "[" ^ Stdlib.String.concat "" (List.map (function
-        | KInt -> "i" | KLong -> "l" | KLLong -> "q" | KPtr -> "p" | KStr -> "s") ks) ^ "]") ^ "\n");
+        | KInt -> "i" | KLong -> "l" | KLLong -> "q" | KPtr -> "p" | KStr _ -> "s") ks) ^ "]") ^ "\n");
   if !items <> [] then begin
     let its = List.rev !items in
     let rendered = List.concat (List.map (function `Lit b -> b | `Dir (d, _) -> render d) its) in
